@@ -42,7 +42,7 @@ reg('C04', engine='h_planners',
                'continued solves, stated ranking order on planner output and synthetic multisets',
     technique='runtime monitoring: cost recomputation oracle + ranking order checker under ASan+UBSan')
 reg('C20', engine='h_planners', replicas={'quick': 2, 'thorough': 4},
-    variants={'quick': ['asan'], 'thorough': ['asan', 'plain']},
+    variants={'quick': ['asan', 'plain'], 'thorough': ['asan', 'plain']},
     rule='one case = one fresh process that sets the global seed and then either runs one single-threaded planner on a '
          'generated world under an evaluation-count condition (fingerprint = status, every solution path byte for byte, '
          'evaluation count) or draws tables from 6 generators + samplers (fingerprint per generator); every case is executed '
